@@ -54,3 +54,26 @@ class ParseRule:
     def inv_2(self, rule, node, _rest):
         return (wf_node(node) and logical(node) and wf_rules(_rest)
                 and (sem(node) and den_all(_rest)) == den_all(kids(rule)))
+
+
+# ------------------------------------------------------------------ AFM front end: invalid documents are rejected
+from contracts.api import reports_only_to
+
+
+@contract(TR + 'afm_reader.py', 'AFMReader.set_parse_tree', prop='C09', also=('C02', 'C06'))
+class AfmSetParseTree:
+    """lexer and parser report to the collector only, and the function does not return normally when the collector holds an
+    error (front-end objects are opaque library values; that ANTLR reports every lexical and syntax error to its listeners
+    is assumed)"""
+    native = False
+    modifies = ('AFMReader.parse_tree',)
+    raises = ('FlamaException',)
+
+    def post_errors_are_fatal(self, error_listener, result):
+        return not error_listener.errors
+
+    def post_lexer_reports_to_collector(self, lexer, error_listener, result):
+        return reports_only_to(lexer, error_listener)
+
+    def post_parser_reports_to_collector(self, parser, error_listener, result):
+        return reports_only_to(parser, error_listener)
